@@ -178,6 +178,15 @@ fn process_proactive_filling(core: &mut Core, mapping: &mut WorkerTaskMapping) {
         if size == 0 {
             continue;
         }
+        // The top entry of the queue may also hold tasks that are still being retracted from
+        // a worker (their prefill set was disposed); those cannot be prefilled again until
+        // the worker answers, so this queue is skipped in this round.
+        if queue
+            .top_task_ids()
+            .any(|task_id| !task_map.get_task(task_id).is_waiting())
+        {
+            continue;
+        }
         let workers: Vec<_> = worker_map
             .values_mut()
             .filter(|worker| {
